@@ -39,6 +39,8 @@ func runConsumer(r *rt.Run, which string, data []byte, splits []int, fault strin
 		rd.TruncateAt(pos)
 	case "eio":
 		rd.FailAt(pos)
+	case "eio-once":
+		rd.FailOnceAt(pos)
 	}
 	var res consumerResult
 	res.task = r.Solo("consumer:"+which, func() {
@@ -159,6 +161,52 @@ func runC07(r *rt.Run, tier string) {
 		return true
 	}
 
+	if mode == 0 && t.Bool(1, 4, "c07.tworeaders") {
+		// two readers alive at once: reader 1 is drained, reader 2 is created on
+		// another document, reader 1 is asked again (still EOF), reader 2 must
+		// deliver exactly its own document
+		other, doc2, _ := genDoc(t, docGenOpts{MinParas: 1, MaxParas: 3, MaxFields: 3}, r)
+		var got1, got2 []control.Paragraph
+		var again error
+		var afterEOF *control.Paragraph
+		var err2 error
+		task := r.Solo("two-readers", func() {
+			r1, err := control.NewParagraphReader(simio.NewPlainReader(r, "r1", doc), nil)
+			if err != nil {
+				again = err
+				return
+			}
+			got1, _ = r1.All()
+			r2, err := control.NewParagraphReader(simio.NewPlainReader(r, "r2", doc2), nil)
+			if err != nil {
+				err2 = err
+				return
+			}
+			afterEOF, again = r1.Next()
+			if afterEOF == nil {
+				afterEOF, again = r1.Next()
+			}
+			got2, err2 = r2.All()
+		})
+		if taskTrouble(r, "C07", "two-readers", task) {
+			return
+		}
+		r.Probe("two-readers-alive")
+		if afterEOF != nil {
+			r.Violate("C07/paragraph-after-end", "two-readers", "a drained reader returned another paragraph (%v) after a second reader was created", afterEOF.Order)
+		}
+		if err2 != nil || len(got2) != len(other) {
+			r.Violate("C07/paragraph-count", "two-readers/second-reader", "second reader: err=%v, %d paragraphs, its document has %d (first reader had delivered %d of %d)", err2, len(got2), len(other), len(got1), len(model))
+		} else {
+			for i := range other {
+				if d := paraDiff(&got2[i], &other[i]); d != "" {
+					r.Violate("C07/paragraph-mismatch", "two-readers/second-reader", "paragraph %d: %s", i, d)
+					break
+				}
+			}
+		}
+		_ = again
+	}
 	switch mode {
 	case 0:
 		for _, which := range c07Consumers {
@@ -215,6 +263,29 @@ func runC07(r *rt.Run, tier string) {
 		}
 	case 2:
 		pos := t.Draw(len(doc)+1, "faultpos")
+		if t.Bool(1, 3, "fault.transient") {
+			// the stream fails ONCE (a retried read succeeds): every consumer must
+			// either report the error or deliver exactly the document - a fault
+			// must never turn into silently different data
+			r.Probe("transient-read-fault")
+			for _, which := range c07Consumers {
+				res := runConsumer(r, which, doc, splits, "eio-once", pos)
+				if !check(res, which) || res.err != nil {
+					continue
+				}
+				if len(res.paras) != len(model) {
+					r.Violate("C07/fault-changed-the-data", which+"/transient-eio", "one read failed at byte %d and no error was reported, but %d paragraphs were returned instead of %d\ndoc=%q", pos, len(res.paras), len(model), clip(string(doc), 300))
+					continue
+				}
+				for i := range model {
+					if d := paraDiff(&res.paras[i], &model[i]); d != "" {
+						r.Violate("C07/fault-changed-the-data", which+"/transient-eio", "one read failed at byte %d and no error was reported, but paragraph %d differs: %s", pos, i, d)
+						break
+					}
+				}
+			}
+			return
+		}
 		for _, which := range c07Consumers {
 			res := runConsumer(r, which, doc, splits, "eio", pos)
 			if !check(res, which) {
@@ -325,5 +396,5 @@ func init() {
 		},
 		Assumptions: []string{"generator model and reference reader written from Debian Policy 5.1 / deb822(5), independent of the library; the reference reader is checked against the generator model on every run"},
 	})
-	propProbes["C07"] = []string{"crlf", "comment-between-continuations", "comment-before-first", "comment-last", "no-final-newline", "long-line", "empty-first-line", "dot-line", "truncate-wellformed-prefix", "arbitrary-raw", "arbitrary-mutated"}
+	propProbes["C07"] = []string{"transient-read-fault", "two-readers-alive", "crlf", "comment-between-continuations", "comment-before-first", "comment-last", "no-final-newline", "long-line", "empty-first-line", "dot-line", "truncate-wellformed-prefix", "arbitrary-raw", "arbitrary-mutated"}
 }
